@@ -267,3 +267,78 @@ Proof.
   split; [exact example_no_empty_factory|].
   vm_compute. repeat split.
 Qed.
+
+(* ================================================================================================================== *)
+(* the boolean equality decides Leibniz equality *)
+Lemma list_eqb_sound {A} (e : A -> A -> bool) : (forall x y, e x y = true -> x = y) -> forall l1 l2, list_eqb e l1 l2 = true -> l1 = l2.
+Proof.
+  intros He l1. induction l1 as [|x r IH]; destruct l2 as [|y r']; simpl; intro H; try discriminate; [reflexivity|].
+  apply andb_true_iff in H. destruct H as [H1 H2]. rewrite (He _ _ H1), (IH _ H2). reflexivity.
+Qed.
+Lemma pair_eqb_sound {A B} (ea : A -> A -> bool) (eb : B -> B -> bool) :
+  (forall x y, ea x y = true -> x = y) -> (forall x y, eb x y = true -> x = y) -> forall p q, pair_eqb ea eb p q = true -> p = q.
+Proof.
+  intros Ha Hb [a b] [a' b']. unfold pair_eqb. simpl. intro H. apply andb_true_iff in H. destruct H as [H1 H2].
+  rewrite (Ha _ _ H1), (Hb _ _ H2). reflexivity.
+Qed.
+Lemma option_eqb_sound {A} (e : A -> A -> bool) : (forall x y, e x y = true -> x = y) -> forall a b, option_eqb e a b = true -> a = b.
+Proof. intros He [x|] [y|]; simpl; intro H; try discriminate; [rewrite (He _ _ H)|]; reflexivity. Qed.
+Lemma str_eqb_sound x y : String.eqb x y = true -> x = y.
+Proof. apply String.eqb_eq. Qed.
+Lemma z_eqb_sound x y : Z.eqb x y = true -> x = y.
+Proof. apply Z.eqb_eq. Qed.
+
+Ltac split_ands H :=
+  repeat match type of H with
+         | (_ && _)%bool = true => let H1 := fresh "H" in apply andb_true_iff in H; destruct H as [H H1]
+         end.
+
+Lemma meth_eqb_sound a b : meth_eqb a b = true -> a = b.
+Proof.
+  destruct a, b. unfold meth_eqb. simpl. intro H. apply andb_true_iff in H. destruct H as [H H3]. apply andb_true_iff in H. destruct H as [H1 H2].
+  rewrite (str_eqb_sound _ _ H1), (str_eqb_sound _ _ H2), (str_eqb_sound _ _ H3). reflexivity.
+Qed.
+Lemma oval_eqb_sound a b : oval_eqb a b = true -> a = b.
+Proof.
+  destruct a, b; simpl; intro H; try discriminate.
+  - rewrite (z_eqb_sound _ _ H). reflexivity.
+  - apply andb_true_iff in H. destruct H as [H1 H2]. rewrite (str_eqb_sound _ _ H1), (str_eqb_sound _ _ H2). reflexivity.
+Qed.
+Lemma cfield_eqb_sound a b : cfield_eqb a b = true -> a = b.
+Proof.
+  destruct a, b; simpl; intro H; try discriminate.
+  - apply andb_true_iff in H. destruct H as [H1 H2]. rewrite (str_eqb_sound _ _ H1), (z_eqb_sound _ _ H2). reflexivity.
+  - apply andb_true_iff in H. destruct H as [H H3]. apply andb_true_iff in H. destruct H as [H1 H2].
+    rewrite (str_eqb_sound _ _ H1), (str_eqb_sound _ _ H2), (oval_eqb_sound _ _ H3). reflexivity.
+  - apply andb_true_iff in H. destruct H as [H1 H2].
+    rewrite (option_eqb_sound _ str_eqb_sound _ _ H1), (list_eqb_sound _ (pair_eqb_sound _ _ str_eqb_sound str_eqb_sound) _ _ H2). reflexivity.
+  - rewrite (str_eqb_sound _ _ H). reflexivity.
+  - rewrite (str_eqb_sound _ _ H). reflexivity.
+Qed.
+Lemma class_eqb_sound a b : class_eqb a b = true -> a = b.
+Proof.
+  destruct a, b. unfold class_eqb. simpl. intro H.
+  apply andb_true_iff in H. destruct H as [H H4]. apply andb_true_iff in H. destruct H as [H H3]. apply andb_true_iff in H. destruct H as [H1 H2].
+  rewrite (str_eqb_sound _ _ H1), (str_eqb_sound _ _ H2), (list_eqb_sound _ cfield_eqb_sound _ _ H3), (list_eqb_sound _ meth_eqb_sound _ _ H4).
+  reflexivity.
+Qed.
+Lemma factory_eqb_sound a b : factory_eqb a b = true -> a = b.
+Proof.
+  destruct a, b. unfold factory_eqb. simpl. intro H.
+  apply andb_true_iff in H. destruct H as [H H6]. apply andb_true_iff in H. destruct H as [H H5]. apply andb_true_iff in H. destruct H as [H H4].
+  apply andb_true_iff in H. destruct H as [H H3]. apply andb_true_iff in H. destruct H as [H1 H2].
+  rewrite (str_eqb_sound _ _ H1), (str_eqb_sound _ _ H2), (list_eqb_sound _ str_eqb_sound _ _ H3),
+    (list_eqb_sound _ (pair_eqb_sound _ _ (list_eqb_sound _ (pair_eqb_sound _ _ str_eqb_sound str_eqb_sound)) str_eqb_sound) _ _ H4),
+    (list_eqb_sound _ (pair_eqb_sound _ _ str_eqb_sound str_eqb_sound) _ _ H5), (list_eqb_sound _ meth_eqb_sound _ _ H6).
+  reflexivity.
+Qed.
+Lemma entry_eqb_sound a b : entry_eqb a b = true -> a = b.
+Proof.
+  destruct a, b; simpl; intro H; try discriminate.
+  - rewrite (class_eqb_sound _ _ H). reflexivity.
+  - rewrite (factory_eqb_sound _ _ H). reflexivity.
+  - rewrite (str_eqb_sound _ _ H). reflexivity.
+  - rewrite (str_eqb_sound _ _ H). reflexivity.
+Qed.
+Lemma outline_eqb_sound a b : outline_eqb a b = true -> a = b.
+Proof. apply list_eqb_sound. exact entry_eqb_sound. Qed.
